@@ -175,7 +175,7 @@ def matrix_with_spectrum(rng, q0, q1, kind, cplx):
 
 
 def _layout(rng, m, n):
-    lay = str(rng.choice(['zero', 'sorted', 'unsorted', 'q0sorted', 'q1sorted', 'disjoint', 'big', 'pairs', 'repeated']))
+    lay = str(rng.choice(['zero', 'sorted', 'unsorted', 'q0sorted', 'q1sorted', 'disjoint', 'big', 'pairs', 'repeated', 'huge']))
     r = int(rng.integers(1, 3))
     if lay == 'q0sorted':
         return lay, gen.qvec(rng, m, 'sorted', r), gen.qvec(rng, n, 'unsorted', r)
@@ -186,22 +186,27 @@ def _layout(rng, m, n):
     return lay, gen.qvec(rng, m, lay, r), gen.qvec(rng, n, lay, r)
 
 
+SCALES = [1, 1, 1, 0.01, 1e-20, 1e20, 1e-170, 1e170, 1e-280, 1e280]      # beyond 1e+-154 the squares of the entries leave the double range
+
+
 def random_svd(ctx, idx, rng):
     m, n = (int(rng.integers(1, 25)), int(rng.integers(1, 25))) if idx % 20 else (int(rng.integers(25, 120)), int(rng.integers(25, 120)))
     lay, q0, q1 = _layout(rng, m, n)
     kind = str(rng.choice(['decaying', 'flat', 'staircase', 'degenerate', 'deficient', 'random', 'zerocols', 'binary', 'dupcols']))
     cplx = bool(rng.random() < 0.5)
     if kind in ('zerocols', 'binary', 'dupcols'):
-        A = gen.structured_block_matrix(rng, q0, q1, kind) * float(rng.choice([1, 1e-20, 1e20, 0.01]))
+        A = gen.structured_block_matrix(rng, q0, q1, kind) * float(rng.choice(SCALES))
         cplx = bool(np.iscomplexobj(A))
     else:
-        A = matrix_with_spectrum(rng, q0, q1, kind, cplx) * float(rng.choice([1, 1e-20, 1e20, 0.01]))
+        A = matrix_with_spectrum(rng, q0, q1, kind, cplx) * float(rng.choice(SCALES))
     A, mem = gen.memory_layout(rng, A)
-    nA = np.linalg.norm(A)
+    ex = oracles.pow2_exponent(A)
+    As = oracles.ldexp(A, -ex)                        # exactly rescaled copy for the harness's own norms (entries up to 1e+-280)
+    nA = np.linalg.norm(As)
     tols = [float(rng.choice(TOLS))]
     if nA > 0:
         # a tolerance sitting on / next to a cumulative weight of the actual spectrum
-        sig = np.sort(np.linalg.svd(A, compute_uv=False))
+        sig = np.sort(np.linalg.svd(As, compute_uv=False))
         cw = np.cumsum(sig ** 2) / nA ** 2
         c = float(cw[int(rng.integers(0, len(cw)))])
         for t in (c, c * (1 + 1e-9), c * (1 - 1e-9)):
@@ -215,8 +220,9 @@ def random_svd(ctx, idx, rng):
             res = ptn.split_matrix_svd(A, q0, q1, tol)
         oracles.check_svd(ctx, snap[0], snap[1], snap[2], tol, (A, q0, q1), res)
         if tol == 0 and nA > 0 and isinstance(res, tuple) and len(res) == 4:
-            def later(res=res, A0=snap[0], nA=nA):
+            def later(res=res, A0=As.copy(), nA=nA, ex=ex):
                 u, sv, v, q = (np.asarray(x) for x in res)
+                sv = oracles.ldexp(sv, -ex)
                 ctx.close('svd.result-still-valid-after-later-calls', float(np.linalg.norm((u * sv) @ v - A0)), 1e-11 * nA, 'an earlier split_matrix_svd result was altered by later calls', {'A': A0})
             ctx.hold(later)
     if A.flags.writeable and idx % 3 == 0 and nA > 0:
@@ -232,7 +238,7 @@ def random_svd(ctx, idx, rng):
 def random_retained(ctx, idx, rng):
     k = int(rng.integers(1, 30))
     kind = str(rng.choice(['decaying', 'flat', 'staircase', 'degenerate', 'deficient', 'random', 'zero']))
-    s = np.zeros(k) if kind == 'zero' else spectrum(rng, k, kind)[rng.permutation(k)] * float(rng.choice([1, 1e-100, 1e100]))
+    s = np.zeros(k) if kind == 'zero' else spectrum(rng, k, kind)[rng.permutation(k)] * float(rng.choice([1, 1, 1e-100, 1e100, 1e-170, 1e170, 1e-290, 1e290]))
     tol = float(rng.choice(TOLS))
     s0 = s.copy()
     ctx.case(('retained', kind, 'tol0' if tol == 0 else 'tol>0'), nontrivial=kind != 'zero', sample={'s': s0, 'tol': tol})
